@@ -105,8 +105,17 @@ Definition gap_rename (st : state) (o : op) : bool :=
 Definition gap (st : state) (o : op) : bool := gap_rejected st o || gap_rename st o.
 
 (* ---- cases ------------------------------------------------------------------------------ *)
-Definition obs := (result * state)%type.
+(* observation after one operation: the result and the complete state -- [None] when the state
+   observed on the implementation is the same as before the operation *)
+Definition obs := (result * option state)%type.
 Definition case := (nat * list (op * obs))%type.
+
+Definition obs_ok (st st' : state) (r' : result) (o : obs) : bool :=
+  result_eqb (fst o) r' &&
+  match snd o with
+  | Some ex => state_eqb st' ex
+  | None => state_eqb st' st
+  end.
 
 (* index of the first step whose observation differs from the model, unless the model is in the
    gap at that step (then the history is abandoned: the implementation's own compliance with
@@ -114,9 +123,9 @@ Definition case := (nat * list (op * obs))%type.
 Fixpoint first_bad (st : state) (l : list (op * obs)) (i : nat) : option nat :=
   match l with
   | [] => None
-  | (o, (r, ex)) :: rest =>
+  | (o, ob) :: rest =>
       let (st', r') := step st o in
-      if result_eqb r r' && state_eqb st' ex then first_bad st' rest (S i)
+      if obs_ok st st' r' ob then first_bad st' rest (S i)
       else if gap st o then None
       else Some i
   end.
@@ -124,13 +133,13 @@ Fixpoint first_bad (st : state) (l : list (op * obs)) (i : nat) : option nat :=
 Definition check_case (c : case) : bool :=
   match first_bad (init_state (fst c)) (snd c) 0 with None => true | Some _ => false end.
 
-(* strict variant: no tolerance in the gap (used while the implementation is unfixed) *)
+(* strict variant: no tolerance in the gap *)
 Fixpoint first_bad_strict (st : state) (l : list (op * obs)) (i : nat) : option nat :=
   match l with
   | [] => None
-  | (o, (r, ex)) :: rest =>
+  | (o, ob) :: rest =>
       let (st', r') := step st o in
-      if result_eqb r r' && state_eqb st' ex then first_bad_strict st' rest (S i) else Some i
+      if obs_ok st st' r' ob then first_bad_strict st' rest (S i) else Some i
   end.
 
 (* for replay files: what the model answers at step i *)
@@ -149,3 +158,48 @@ Fixpoint gap_steps (st : state) (l : list (op * obs)) : nat :=
   | [] => 0
   | (o, _) :: rest => (if gap st o then 1 else 0) + gap_steps (fst (step st o)) rest
   end.
+
+(* ---- wire format -------------------------------------------------------------------------
+   Monomorphic types for the generated case files: no implicit arguments, so that coqc
+   elaborates the literals in linear time.  [decode_*] maps them to the model's types. *)
+Inductive wents := WE0 | WE (k : string) (s : nat) (r : wents).
+Inductive wnats := WN0 | WN (n : nat) (r : wnats).
+Inductive wheap := WH0 | WH (name : string) (k : kind) (w : bool) (i : iface) (r : wheap).
+Inductive wtable := WT (syms tags : wents) (args : wnats).
+Inductive wslots := WS0 | WSnone (r : wslots) | WSsome (t : wtable) (r : wslots).
+Inductive wdet := WD0 | WD (t : wtable) (r : wdet).
+Inductive wobs := WSame | WNew (h : wheap) (s : wslots) (d : wdet).
+Inductive wsteps := WP0 | WP (o : op) (r : result) (ob : wobs) (rest : wsteps).
+Inductive wcase := WC (n : nat) (p : wsteps).
+
+Fixpoint decode_ents (w : wents) : list (string * sid) :=
+  match w with WE0 => [] | WE k s r => (k, s) :: decode_ents r end.
+Fixpoint decode_nats (w : wnats) : list nat :=
+  match w with WN0 => [] | WN n r => n :: decode_nats r end.
+Fixpoint decode_heap (w : wheap) : heap :=
+  match w with WH0 => [] | WH n k b i r => mkSym n k b i :: decode_heap r end.
+Definition decode_table (w : wtable) : table :=
+  match w with WT a b c => mkTable (decode_ents a) (decode_ents b) (decode_nats c) end.
+Fixpoint decode_slots (w : wslots) : list (option table) :=
+  match w with
+  | WS0 => []
+  | WSnone r => None :: decode_slots r
+  | WSsome t r => Some (decode_table t) :: decode_slots r
+  end.
+Fixpoint decode_det (w : wdet) : list table :=
+  match w with WD0 => [] | WD t r => decode_table t :: decode_det r end.
+Definition decode_obs (w : wobs) : option state :=
+  match w with
+  | WSame => None
+  | WNew h s d => Some (mkState (decode_heap h) (decode_slots s) (decode_det d))
+  end.
+Fixpoint decode_steps (w : wsteps) : list (op * obs) :=
+  match w with WP0 => [] | WP o r ob rest => (o, (r, decode_obs ob)) :: decode_steps rest end.
+Definition decode_case (w : wcase) : case :=
+  match w with WC n p => (n, decode_steps p) end.
+
+Definition check_wcase (w : wcase) : bool := check_case (decode_case w).
+Definition first_bad_w (w : wcase) : option nat :=
+  let c := decode_case w in first_bad_strict (init_state (fst c)) (snd c) 0.
+Definition model_at_w (w : wcase) (i : nat) : option (result * state) :=
+  let c := decode_case w in model_at (init_state (fst c)) (snd c) i.
